@@ -974,8 +974,8 @@ fn run_len5_slice(ctx: &Ctx) {
     }
 }
 
-const QUICK_SLICE_LEN4: u64 = 60_000;
-const QUICK_SLICE_LEN5: u64 = 60_000;
+const QUICK_SLICE_LEN4: u64 = 80_000;
+const QUICK_SLICE_LEN5: u64 = 80_000;
 
 // ---------------------------------------------------------------------------------------------
 // random histories
@@ -1065,7 +1065,7 @@ fn hist_strategy() -> impl Strategy<Value = Hist> {
 fn run_random(ctx: &Ctx) {
     ctx.run_prop("hist-random", ctx.tier.pick(QUICK_RANDOM, 400_000), hist_strategy, check_hist);
 }
-const QUICK_RANDOM: u32 = 20_000;
+const QUICK_RANDOM: u32 = 40_000;
 
 fn run_registry_exh(ctx: &Ctx, name: &str, unit_ns: u64) {
     let alpha = ralphabet();
@@ -1100,13 +1100,17 @@ fn post(ctx: &Ctx) {
     }
     // generator health: the flows the property talks about must actually happen, in both
     // directions, before and after a loss of authorisation
-    ctx.require_label("forwarded", 1000);
-    ctx.require_label("out-delivered", 1000);
-    ctx.require_label("in-blocked-after-loss", 300);
-    ctx.require_label("out-blocked-after-loss", 300);
-    ctx.require_label("flow-resumed-in", 50);
-    ctx.require_label("flow-resumed-out", 50);
-    ctx.require_label("probe-exactly-at-expiry", 1000);
+    ctx.require_label("forwarded", 10_000);
+    ctx.require_label("out-delivered", 5_000);
+    ctx.require_label("nontrivial", 5_000);
+    ctx.require_label("in-blocked-after-loss", 2_500);
+    ctx.require_label("out-blocked-after-loss", 3_500);
+    ctx.require_label("flow-resumed-in", 1_000);
+    ctx.require_label("flow-resumed-out", 1_000);
+    // outbound payload left queued inside the server's tunnel state across a loss of authorisation
+    ctx.require_label("out-accepted-packet-lost", 500);
+    ctx.require_label("handshake-second-identity-same-address", 5_000);
+    ctx.require_label("probe-exactly-at-expiry", 100_000);
     ctx.extra(
         "excluded_cases",
         serde_json::json!({
